@@ -1,5 +1,5 @@
 """C16 — result objects behave as vectors and survive saving"""
-import os, itertools, tempfile, traceback
+import os, itertools, tempfile, traceback, functools, operator
 import numpy as np
 from symx.core import *
 from symx.core import z3
@@ -16,12 +16,19 @@ FUNCTIONS = ["EnergyResult.__add__/__sub__/__mul__/__rmul__/__truediv__/mul_arra
 BOUNDS = dict(quick=dict(energy_axes="1..2 (lengths 2,3)", rank="0..2", nk="1..2 per operand", nb="1..2", data="symbolic complex", energies="symbolic reals",
                          scalar="symbolic real (!=0 for division), ints 2,-1", symmetry="symbolic real 3x3 matrix R x (TR,Inv) in {F,T}^2",
                          transforms="factor +-1, conj, transpose_axes, swap_axes (pairs enumerated per rank)"),
-              thorough=dict(energy_axes="0..3 (lengths 2,3,2; 0 axes only with rank >= 1)", rank="0..3", nk="1..3 per operand", nb="1..3", data="symbolic complex", energies="symbolic reals",
-                            scalar="as quick", symmetry="as quick", transforms="as quick + rank-3 transposes"))
+              thorough=dict(energy_axes="0..4 (lengths up to 7; 5x4, 4x3, 3x2x2, 2x2x2x2; 0 axes only with rank >= 1)", rank="0..4 (rank 4 with its own transposes)",
+                            nk="1..6 per operand (6+5 stacked)", nb="1..4", data="symbolic complex", energies="symbolic reals",
+                            scalar="two symbolic reals (!=0 when dividing), python ints 2,-1,4, floats 0.5, numpy float64 1.5/0.25", symmetry="up to three different symbolic 3x3 matrices with "
+                            "enumerated (TR,Inv) flags: single operations, compositions g2(g1(a)), PointGroup.symmetrize over 2 and 4 operations",
+                            transforms="as quick + rank-3/rank-4 transposes and swaps",
+                            expressions="(a*lam + b*2 - c/mu)*0.5 + Void - (b-a)*(-1) + 0, sum([..],Void)/4, Void inside longer expressions, k-stacks of three scaled K results, "
+                            "ResultDict nested in ResultDict ((r1+r2)*lam + r1*2), symmetrize of nested dictionaries"))
 EXPLANATION = ("The real result classes run on object arrays of symbolic complex data, symbolic energies, a symbolic real scalar and a symmetry operation whose 3x3 "
                "matrix is symbolic; every law (element-wise +,-,*,/, mul_array, in-place add, Void neutrality, k-stacking of K__Result, "
                "transform == own index-level statement of rotation+Transform, transform distributes over +) is a polynomial identity decided by z3. "
-               "save->from_npz runs through an in-memory npz model and every field (energies, data, rank, each Transform field, comment, titles) is compared.")
+               "save->from_npz runs through an in-memory npz model and every field (energies, data, rank, each Transform field, comment, titles) is compared.  "
+               "The thorough tier adds longer expressions with mixed int/float/numpy-float/symbolic scalars, nested dictionaries, compositions of two transformations and "
+               "PointGroup.symmetrize (average over 2 and 4 symbolic operations), each compared entry-wise with the expression written on the raw arrays.")
 ASSUMPTIONS = ["scalar != 0 for division", "operands of + share Energies/transforms (documented precondition; enforced by the code's asserts)",
                "K__Result.add: both operands have the same chunk layout (data_list)",
                "when a symmetry has both TR and Inv the two Transforms commute (pairs are chosen so)"]
@@ -31,6 +38,7 @@ OUTSIDE = ["K__Result.__truediv__ returns a copy by design (K-point weights do n
            "scaling by numpy scalar types (EnergyResult.__mul__ accepts only python int/float)", "saving a result whose transforms are None",
            "compression/pickle layer of numpy's npz itself (replay uses the real np.savez_compressed/np.load)", "text output (savetxt)",
            "TABresult arithmetic (C30)", "sizes above the stated bounds",
+           "0 + KBandResult / sum() / PointGroup.symmetrize of a bare K result (AttributeError in K__Result.fit): the package sums K results only inside TABresult, which handles 0 itself - noted",
            "EnergyResult without energy axes AND rank 0 (0-d data): Transform.__call__ does res[:] and raises IndexError under TR/Inv; the class docstring marks energy-free "
            "results as untested ('does it work?') - observation, not claimed (energy-free results of rank >= 1 are covered in the thorough tier)"]
 STUBS = ["np.savez_compressed / np.load / open / os.path.isfile in result.result and result.energyresult: in-memory store, load returns what was saved "
@@ -259,7 +267,7 @@ def laws_save(ck, P, X, store=None):
     NEs, rank, dTR, dInv = P["NEs"], P["rank"], P["tTR"], P["tInv"]
     A, R, En = X["A"], X["R"], [X[f"E{i}"] for i in range(len(NEs))]
     comment = P["comment"]
-    titles = ["Ef", "hw", "third"][:len(NEs)]
+    titles = ["Ef", "hw", "third", "fourth"][:len(NEs)]
     a = ER.EnergyResult(En, A.copy(), transformTR=mkT(dTR), transformInv=mkT(dInv), rank=rank, comment=comment, E_titles=titles, save_mode="bin")
     K = "EnergyResult save/from_npz: "
     if store is None:      # replay: the real file system and the real numpy
@@ -373,20 +381,74 @@ def laws_dict(ck, P, X):
           np.concatenate([A0.ravel(), B0.ravel(), KA0.ravel()]), K + "arithmetic mutates an operand")
 
 
-LAWS = dict(energy=laws_energy, save=laws_save, kband=laws_kband, dict=laws_dict)
+def laws_expr(ck, P, X):
+    """longer expressions with mixed operand types, nested dictionaries, composed transformations and PointGroup.symmetrize (thorough tier)"""
+    NEs, rank, dTR, dInv, nk1, nk2, nb = P["NEs"], P["rank"], P["tTR"], P["tInv"], P["nk1"], P["nk2"], P["nb"]
+    A, B, C, KA, KB_, lam, mu, En = X["A"], X["B"], X["C"], X["KA"], X["KB"], X["lam"], X["mu"], [X[f"E{i}"] for i in range(len(NEs))]
+    A0, B0, C0, KA0, KB0 = A.copy(), B.copy(), C.copy(), KA.copy(), KB_.copy()
+    tTR, tInv = mkT(dTR), mkT(dInv)
+    mkE = lambda D: ER.EnergyResult(En, D, transformTR=tTR, transformInv=tInv, rank=rank, save_mode="bin")
+    mkK = lambda D: KB.KBandResult(D, transformTR=tTR, transformInv=tInv)
+    a, b, c, ka, kb = mkE(A), mkE(B), mkE(C), mkK(KA), mkK(KB_)
+    V = RR.VoidResult
+    K = "expression: "
+    e1 = (a * lam + b * 2 - c / mu) * 0.5 + V() - (b - a) * (-1) + 0
+    ck.eq("((a*lam + b*2 - c/mu)*0.5 + Void - (b-a)*(-1) + 0).data", e1.data, (A0 * lam + B0 * 2 - C0 / mu) * 0.5 + (B0 - A0), K + "mixed int/float/symbolic scalar expression wrong")
+    e2 = sum([a, b, c, a], V()) / 4
+    ck.eq("(sum([a,b,c,a], Void)/4).data", e2.data, (A0 * 2 + B0 + C0) / 4, K + "sum()/n wrong")
+    e3 = a * np.float64(1.5) - b * np.float64(0.25) + None
+    ck.eq("(a*np.float64(1.5) - b*np.float64(0.25) + None).data", e3.data, A0 * 1.5 - B0 * 0.25, K + "numpy float operands wrong")
+    e4 = (V() - a) + (V() * lam + b) - (c + V()) / mu
+    ck.eq("((Void-a) + (Void*lam+b) - (c+Void)/mu).data", e4.data, B0 - A0 - C0 / mu, K + "Void inside a longer expression wrong")
+    k1 = (ka * lam + kb * mu + ka) * 2
+    ck.eq("((ka*lam + kb*mu + ka)*2).data == 2*vstack(lam KA, mu KB, KA)", k1.data, np.vstack([KA0 * lam, KB0 * mu, KA0]) * 2, K + "stacked K expression wrong")
+    ck.ok("stacked nk", k1.nk == 2 * nk1 + nk2, K + "stacked K expression nk wrong")
+    # nested dictionaries
+    r1 = RD.ResultDict({"in": RD.ResultDict({"e": a, "k": ka, "v": V()}), "e": b})
+    r2 = RD.ResultDict({"in": RD.ResultDict({"e": c, "k": kb, "v": a}), "e": a})
+    n1 = (r1 + r2) * lam + r1 * 2
+    ck.eq("nested ((r1+r2)*lam + r1*2)[in][e], [e], [in][v]", np.stack([n1.results["in"].results["e"].data, n1.results["e"].data, n1.results["in"].results["v"].data]),
+          np.stack([(A0 + C0) * lam + A0 * 2, (B0 + A0) * lam + B0 * 2, A0 * lam]), K + "nested ResultDict arithmetic wrong")
+    ck.eq("nested ((r1+r2)*lam + r1*2)[in][k] stacked", n1.results["in"].results["k"].data, np.vstack([KA0 * lam, KB0 * lam, KA0 * 2]), K + "nested ResultDict K entry wrong")
+    # composed transformations and symmetrisation with three different symbolic operations
+    ops = [mksym(X["R"], *P["flags"][0]), mksym(X["R2"], *P["flags"][1]), mksym(X["R3"], *P["flags"][2])]
+    orc = lambda D, g: oracle_transform(D, rank, g.R, g.TR, g.Inv, dTR, dInv)
+    t12 = a.transform(ops[0]).transform(ops[1])
+    ck.eq("a.transform(g1).transform(g2) == statement applied twice", t12.data, orc(orc(A0, ops[0]), ops[1]), K + "composition of transformations wrong")
+    lin = (a * lam - b).transform(ops[2]).transform(ops[0])
+    ck.eq("transform o transform is linear: (lam a - b) -> lam T(a) - T(b)", lin.data, a.transform(ops[2]).transform(ops[0]).data * lam - b.transform(ops[2]).transform(ops[0]).data,
+          K + "composed transformation not linear")
+    for size in (2, 4):
+        grp = object.__new__(PS.PointGroup)
+        grp.symmetries = (ops + [ops[0]])[:size]
+        sa = grp.symmetrize(a)
+        ck.eq(f"PointGroup.symmetrize over {size} operations == average of the transformed data", sa.data, sum(orc(A0, g) for g in grp.symmetries) / size, K + "symmetrize is not the group average")
+        sd = grp.symmetrize(RD.ResultDict({"e": a, "in": RD.ResultDict({"f": b}), "v": V()}))
+        ck.eq(f"symmetrize of a nested dictionary ({size})", np.stack([sd.results["e"].data, sd.results["in"].results["f"].data]),
+              np.stack([sum(orc(A0, g) for g in grp.symmetries) / size, sum(orc(B0, g) for g in grp.symmetries) / size]), K + "symmetrize of a dictionary wrong")
+        ck.ok("symmetrize keeps a Void entry", isinstance(sd.results["v"], RR.VoidResult), K + "symmetrize Void entry")
+        sk = functools.reduce(operator.add, [ka.transform(g) for g in grp.symmetries])      # (0 + K result is not supported, so not PointGroup.symmetrize itself)
+        ck.eq(f"sum of the {size} transformed copies of a K result k-stacks them", sk.data, np.vstack([orc(KA0, g) for g in grp.symmetries]), K + "stack of transformed K results wrong")
+    ck.eq("operands unchanged", np.concatenate([a.data.ravel(), b.data.ravel(), c.data.ravel(), ka.data.ravel(), kb.data.ravel()]),
+          np.concatenate([A0.ravel(), B0.ravel(), C0.ravel(), KA0.ravel(), KB0.ravel()]), K + "a long expression mutates an operand")
+
+
+LAWS = dict(energy=laws_energy, save=laws_save, kband=laws_kband, dict=laws_dict, expr=laws_expr)
 
 
 def input_spec(kind, P):
     """name -> ('c'|'r', shape) ; shape () = scalar"""
     sp = dict(R=("r", (3, 3)), lam=("r", ()))
     tens = (3,) * P["rank"]
-    if kind in ("energy", "save", "dict"):
+    if kind in ("energy", "save", "dict", "expr"):
         NEs = tuple(P["NEs"])
         for i, n in enumerate(NEs):
             sp[f"E{i}"] = ("r", (n,))
         sp["A"] = ("c", NEs + tens)
-    if kind in ("energy", "dict"):
+    if kind in ("energy", "dict", "expr"):
         sp["B"] = ("c", NEs + tens)
+    if kind == "expr":
+        sp.update(C=("c", NEs + tens), mu=("r", ()), R2=("r", (3, 3)), R3=("r", (3, 3)))
     if kind == "energy" and NEs:
         sp["M0"] = ("r", NEs[:1])
         if len(NEs) >= 2:
@@ -397,7 +459,7 @@ def input_spec(kind, P):
         sp.update(A=("c", (P["nk1"], nb) + tens), B=("c", (P["nk2"], nb) + tens), C=("c", (1, nb) + tens), B1=("c", (P["nk1"], nb) + tens), M0=("r", (nb,)))
         if P["rank"] >= 1:
             sp.update(M01=("c", (nb, 3)), M1=("r", (3,)))
-    if kind == "dict":
+    if kind in ("dict", "expr"):
         sp.update(KA=("c", (P["nk1"], P["nb"]) + tens), KB=("c", (P["nk2"], P["nb"]) + tens))
     return sp
 
@@ -408,7 +470,7 @@ def case_laws(rec, kind, P):
     X = {}
     for nm, (t, shp) in sp.items():
         X[nm] = (symvec(nm, shp, real=(t == "r")) if shp else SymC.var(nm))
-    ass = [X["lam"].zreal() != 0]
+    ass = [X[nm].zreal() != 0 for nm in ("lam", "mu") if nm in X]
 
     def body(rec):
         store.files.clear()
@@ -434,6 +496,8 @@ def transform_pairs(rank, tier, ndim0):
     if rank == 3:
         out += [(dict(factor=-1, transpose_axes=[0, 2, 1]), ODD), (ID, dict(factor=-1, transpose_axes=[1, 0, 2])), (dict(transpose_axes=[1, 2, 0]), ODD),
                 (dict(conj=True, transpose_axes=[2, 0, 1]), ODD), (ID, dict(swap_axes=[-1, -3]))]
+    if rank == 4:
+        out += [(dict(transpose_axes=[1, 0, 3, 2]), ODD), (dict(factor=-1, conj=True, transpose_axes=[3, 2, 1, 0]), dict(swap_axes=[-1, -4])), (ID, dict(factor=-1, transpose_axes=[0, 2, 3, 1]))]
     return out
 
 
@@ -442,27 +506,36 @@ def cases(tier, seed):
     out = []
     tname = lambda d: "T(" + ",".join(f"{k}={v}" for k, v in d.items()) + ")"
     # energy-resolved
-    shapes = [((2,), 0), ((3,), 1), ((2, 3), 1), ((2,), 2), ((2, 3), 0)] + ([] if q else [((2, 3), 2), ((), 1), ((), 2), ((2, 3, 2), 0), ((2, 3, 2), 1), ((2,), 3)])
+    shapes = [((2,), 0), ((3,), 1), ((2, 3), 1), ((2,), 2), ((2, 3), 0)] + ([] if q else [((2, 3), 2), ((), 1), ((), 2), ((2, 3, 2), 0), ((2, 3, 2), 1), ((2,), 3),
+                                                                                      ((7,), 1), ((5, 4), 0), ((4, 3), 2), ((3, 2, 2), 2), ((2, 2, 2, 2), 1), ((2, 3), 3), ((2,), 4), ((), 3)])
     for NEs, rank in shapes:
         for tTR, tInv in transform_pairs(rank, tier, len(NEs)):
             P = dict(NEs=list(NEs), rank=rank, tTR=tTR, tInv=tInv)
-            out.append(Case(f"energy NEs={NEs} rank={rank} TR={tname(tTR)} Inv={tname(tInv)}", case_laws, dict(kind="energy", P=P), timeout=900))
+            out.append(Case(f"energy NEs={NEs} rank={rank} TR={tname(tTR)} Inv={tname(tInv)}", case_laws, dict(kind="energy", P=P), timeout=3000))
             if len(NEs) >= 1 or not q:
                 out.append(Case(f"save NEs={NEs} rank={rank} TR={tname(tTR)} Inv={tname(tInv)}", case_laws,
-                                dict(kind="save", P=dict(P, comment="line one\nsecond: Ω (a.u.)" if rank % 2 else "undocumented")), timeout=900))
+                                dict(kind="save", P=dict(P, comment="line one\nsecond: Ω (a.u.)" if rank % 2 else "undocumented")), timeout=3000))
     # band-resolved
-    kshapes = [(1, 1, 1, 0), (2, 1, 2, 1), (1, 2, 2, 2)] + ([] if q else [(2, 2, 1, 2), (3, 1, 3, 1), (1, 3, 2, 0), (2, 1, 1, 3)])
+    kshapes = [(1, 1, 1, 0), (2, 1, 2, 1), (1, 2, 2, 2)] + ([] if q else [(2, 2, 1, 2), (3, 1, 3, 1), (1, 3, 2, 0), (2, 1, 1, 3), (6, 5, 2, 1), (4, 3, 4, 0), (3, 2, 3, 2), (2, 2, 2, 3), (1, 1, 1, 4)])
     for nk1, nk2, nb, rank in kshapes:
         for tTR, tInv in transform_pairs(rank, tier, 2):
             P = dict(nk1=nk1, nk2=nk2, nb=nb, rank=rank, tTR=tTR, tInv=tInv)
-            out.append(Case(f"kband nk={nk1}+{nk2} nb={nb} rank={rank} TR={tname(tTR)} Inv={tname(tInv)}", case_laws, dict(kind="kband", P=P), timeout=900))
+            out.append(Case(f"kband nk={nk1}+{nk2} nb={nb} rank={rank} TR={tname(tTR)} Inv={tname(tInv)}", case_laws, dict(kind="kband", P=P), timeout=3000))
     # dictionaries (the K entry and the energy entry share rank and transforms; swap_axes are written relative to the end)
-    for NEs, rank, nk1, nk2, nb in [((2,), 0, 1, 2, 2), ((2, 3), 1, 2, 1, 1)] + ([] if q else [((3,), 2, 1, 1, 2)]):
+    for NEs, rank, nk1, nk2, nb in [((2,), 0, 1, 2, 2), ((2, 3), 1, 2, 1, 1)] + ([] if q else [((3,), 2, 1, 1, 2), ((4, 2), 2, 3, 2, 2), ((2,), 3, 2, 1, 1), ((5,), 1, 4, 3, 3)]):
         for tTR, tInv in transform_pairs(rank, tier, 0):
             if any(min(d.get("swap_axes") or [-1]) >= 0 for d in (tTR, tInv)):
                 continue
             P = dict(NEs=list(NEs), rank=rank, nk1=nk1, nk2=nk2, nb=nb, tTR=tTR, tInv=tInv)
-            out.append(Case(f"dict NEs={NEs} rank={rank} nk={nk1}+{nk2} nb={nb} TR={tname(tTR)} Inv={tname(tInv)}", case_laws, dict(kind="dict", P=P), timeout=900))
+            out.append(Case(f"dict NEs={NEs} rank={rank} nk={nk1}+{nk2} nb={nb} TR={tname(tTR)} Inv={tname(tInv)}", case_laws, dict(kind="dict", P=P), timeout=3000))
+    if not q:   # long expressions, mixed operand types, nested dictionaries, composed transformations, symmetrisation over 2 and 4 symbolic operations
+        flagsets = [[(False, False), (True, False), (False, True)], [(True, True), (False, True), (True, False)]]
+        for i, (NEs, rank, nk1, nk2, nb) in enumerate([((3, 2), 1, 2, 1, 2), ((2,), 2, 1, 2, 1), ((4,), 0, 2, 2, 2), ((2, 2), 2, 1, 1, 2), ((2,), 3, 1, 1, 1)]):
+            for j, (tTR, tInv) in enumerate(transform_pairs(rank, tier, 0)):
+                if any(min(d.get("swap_axes") or [-1]) >= 0 for d in (tTR, tInv)) or (rank == 3 and j % 2):
+                    continue
+                P = dict(NEs=list(NEs), rank=rank, nk1=nk1, nk2=nk2, nb=nb, tTR=tTR, tInv=tInv, flags=flagsets[(i + j) % 2])
+                out.append(Case(f"expr NEs={NEs} rank={rank} nk={nk1}+{nk2} nb={nb} TR={tname(tTR)} Inv={tname(tInv)} ops={P['flags']}", case_laws, dict(kind="expr", P=P), timeout=3000))
     return out
 
 
